@@ -123,9 +123,13 @@ CLAIMED = {
         text="Coq theorems: the kernel equals the direct double sum (any currents, areas, point sets) and is linear; any iterate "
              "returned by the screening loop passed the convergence test with an error that IS the relative mismatch between the "
              "kernel of the last currents and the previous iterate; edge-wise bound |dA_e| < tol max(1e-20,|A'_e|); stored mismatch "
-             "K - A' = dA - v' (exactly (1-alpha) dA for beta = 1; general beta measured: PARTIAL); iteration count <= max+1; the "
+             "K - A' = dA - v' for the next Polyak iterate A' (exactly (1-alpha) dA for beta = 1); the potential the repaired code keeps is "
+             "the tested iterate P', for which |K - P'|_e < tol max(1e-20,|A'_e|) holds for every step size and drag "
+             "(stored_tested_iterate_mismatch: the full statement); iteration count <= max+1; the "
              "loop always decides. Correspondence: get_A_induced_numba and get_induced_vector_potential vs the model (PrimFloat); "
-             "oracle on every step of real screening runs, forced non-convergence, screening disabled (also seeded).",
+             "the kept potential equals the iterate handed to the last get_induced_vector_potential call (bitwise); "
+             "oracle on every step of real screening runs (ordinary, nm-stated and weakly screening films; alarm at 4 x tolerance), "
+             "forced non-convergence, screening disabled (also seeded).",
         note="Coq kernel; stdlib real-number axioms; fastmath reassociation allowed by tolerance 1e-9; site averaging passed as data.",
         technique="Coq proof over R (loop invariant) + vm_compute correspondence of kernel and Polyak step + run oracle",
         design="7/C13"),
